@@ -55,7 +55,7 @@ deriving Repr, DecidableEq
 structure SpecSt where
   mapper    : Mapper := .none
   pending   : List ObsDesc := []      -- observations recorded and not yet reported
-  overflow  : Bool := false           -- more than 300 distinct observations: outside C07's domain until drained
+  overflow  : Bool := false           -- more than `dom` distinct observations were pending at once: outside C07's domain until the next topology Reset
   iconCache : Option (List Nat) := none
 deriving Repr, DecidableEq
 
@@ -84,7 +84,7 @@ def specStep (own : List Nat) (dom : Nat) (g : Glob) (s : SpecSt) (f : List Nat)
   else if isQuery f then
     { s with mapper := s.mapper.onCommand (fRealSrc f) (fEthSrc f) true,
              pending := reported.foldl (fun p d => removeFirst d p) s.pending,
-             overflow := s.overflow && !(reported.length ≥ s.pending.length) }
+             overflow := s.overflow }
   else if isLarge f then
     if fSeq f = 0 then s else
     let s := { s with mapper := s.mapper.onCommand (fRealSrc f) (fEthSrc f) false }
